@@ -27,8 +27,8 @@ def _expand(plans, tier):
         out.append(p)
         if p.get("driver") == "pipeline":   # channel-manager plans: no catalog variants
             continue
-        if tier == "quick" and str(p.get("src", "")).startswith("t2sub"):
-            continue    # quick: the barrier plans are replayed on the plain catalog only
+        if tier == "quick" and str(p.get("src", "")).startswith(("t2sub", "stall")):
+            continue    # quick: the barrier / stall plans are replayed on the plain catalog only
         if _late_relevant(p) and i % 3 != 1 and late < (60 if tier == "quick" else 4000):
             late += 1
             out.append(dict(p, plan=str(p["plan"]) + "-ldb", params=dict(p.get("params") or {}, **LATE_DB)))
@@ -51,6 +51,11 @@ C = dict(
         dict(module="CatalogWatch", cfg="CatalogWatch_MC2.cfg", workers=8),
         dict(module="CatalogWatch", cfg="CatalogWatch_MC2s.cfg", tiers=["thorough"], workers=8),
         dict(module="CatalogWatch", cfg="CatalogWatch_MC2i.cfg", tiers=["thorough"], workers=8),
+        # stalls of the collection watch goroutine (hold / release) interleaved with everything else
+        dict(module="CatalogWatch", cfg="CatalogWatch_MC2h.cfg", tiers=["thorough"], workers=8),
+        # the control switch SkipSeenByListing is harmless with ONE task (it needs a shared EtcdOp): documents why the defect
+        # class is invisible to single-task plans
+        dict(module="CatalogWatch", cfg="CatalogWatch_MC1skip.cfg", tiers=["thorough"], workers=8),
     ],
     plan_sources=[
         dict(name="w2", module="CatalogWatch", cfg="CatalogWatch_Plan1w2.cfg", workers=4, cap={"quick": 90, "thorough": 1500}),
@@ -67,6 +72,10 @@ C = dict(
         dict(name="t2sub", module="CatalogWatch", cfg="CatalogWatch_Plan2tSub.cfg", workers=4),
         dict(name="t2sub2", module="CatalogWatch", cfg="CatalogWatch_Plan2tSub2.cfg", workers=4, cap={"thorough": 800}, tiers=["thorough"]),
         dict(name="t2subany", module="CatalogWatch", cfg="CatalogWatch_Plan2tSubAny.cfg", workers=4, cap={"thorough": 800}, tiers=["thorough"]),
+        # the collection watch goroutine BUSY inside a consumer callback (hold, the failing create, writes queueing up behind it,
+        # release) ordered against the last task's steps; stall is small and replayed completely in both tiers
+        dict(name="stall", module="CatalogWatch", cfg="CatalogWatch_PlanStall.cfg", workers=4),
+        dict(name="stall3", module="CatalogWatch", cfg="CatalogWatch_PlanStall3.cfg", workers=4, cap={"thorough": 1200}, tiers=["thorough"]),
         dict(name="sim2ts", module="CatalogWatch", cfg="CatalogWatch_PlanSim2tSub.cfg", simulate={"thorough": 500}, depth=20,
              cap={"thorough": 300}, tiers=["thorough"]),
         dict(name="sim", module="CatalogWatch", cfg="CatalogWatch_PlanSim.cfg", simulate={"quick": 40, "thorough": 1500},
@@ -91,7 +100,9 @@ C = dict(
     nontrivial=_calls,
     rule="one plan = an initial source catalog, the tasks' selections and a sequence of catalog writes interleaved with the "
          "last task's reader steps (sub, openc, openp, list, plist, startw) and, in the t2sub* sources, with delivery barriers "
-         "of the already running watches (sync), enumerated by TLC from CatalogWatch.tla (exhaustive "
+         "of the already running watches (sync), in the stall* sources with a stall of the running collection watch goroutine "
+         "(hold c i, the failing create of (c, i) whose consumer callback is held inside AddDroppedCollection, writes that "
+         "queue up behind it, release), enumerated by TLC from CatalogWatch.tla (exhaustive "
          "enumerations are sampled with VERIF_SEED, deep ones come from tlc -simulate); a trace is non-trivial if the channel "
          "manager received at least one StartReadCollection / AddPartition; distinct = distinct event sequences",
     assumptions=[
@@ -103,6 +114,10 @@ C = dict(
         "watch delivery is ordered against the reader's steps only in the t2sub* plans (barrier: sentinel objects written at the "
         "barrier reached the recorder and every object the plan created was started / added or offered to all consumers "
         "registered at that moment; bounded wait of 2 s, then the replay goes on); elsewhere it is asynchronous",
+        "a stall of the collection watch goroutine uses the one consumer callback that runs in that goroutine as built (creating -> "
+        "tombstone: AddDroppedCollection, held by the recording channel manager until the plan releases it); callbacks of 'created' "
+        "events run in the EtcdOp's worker pool and do not stall the watch; the partition watch goroutine has no such callback and "
+        "is never stalled",
         "a call counts as missed only after: sentinel objects written after the plan's last write were delivered through both "
         "watch goroutines, then 8 s of waiting, then fresh sentinels and 4 more seconds",
         "one non-default partition name per collection incarnation; databases are never dropped in C13 plans (variant -ldb: a database is created right before its first collection); "
@@ -120,4 +135,12 @@ def run(tier, replay=None):
         if "Contract" not in r.violated:
             raise vlib.Inconclusive("CatalogWatch_LateSub2.cfg no longer violates the contract: the subscribe step of the model is vacuous")
         vlib.log("[tlc] CatalogWatch/CatalogWatch_LateSub2.cfg: violates the contract as expected")
+        # negative controls of the dispatch queue / stall: a watch that skips events "seen" by the latest listing of the SHARED
+        # EtcdOp must leave the contract - by plain interleaving (SkipSeen2) and in the plan vocabulary, where dispatch is eager
+        # unless the watch goroutine is held in a callback (SkipSeenStall: hold, fail, write, list, release)
+        for cfg in ("CatalogWatch_SkipSeenStall.cfg",) + (("CatalogWatch_SkipSeen2.cfg",) if tier == "thorough" else ()):
+            r = vlib.run_tlc("CatalogWatch", cfg, workers=4, timeout=300)
+            if "Contract" not in r.violated:
+                raise vlib.Inconclusive(cfg + " no longer violates the contract: the dispatch queue / stall of the model is vacuous")
+            vlib.log("[tlc] CatalogWatch/%s: violates the contract as expected" % cfg)
     return flow.standard_flow(C, tier, replay)
